@@ -105,16 +105,19 @@ def main():
                        "--suppressions=" + os.path.join(ROOT, "bin", "memcheck.supp")] + cmd
                 out2 = out  # same result file
             jobs.append(dict(cmd=cmd, out=out, log=log, variant=variant + ("+memcheck" if wrap else ""), check=check, shard=rot))
-    running = []; pending = list(jobs)
+    running = []; pending = list(jobs); t_launch = time.time()
     while pending or running:
         while pending and len(running) < NCPU:
             j = pending.pop(0); j["lf"] = open(j["log"], "w"); j["t0"] = time.time()
+            # the deadline is global: a shard that starts late (more shards than cores, loaded machine) gets what is left of it (at least 60 s)
+            j["deadline"] = max(60.0, deadline - (j["t0"] - t_launch))
+            if "--deadline" in j["cmd"]: j["cmd"][j["cmd"].index("--deadline") + 1] = str(int(j["deadline"]))
             j["p"] = subprocess.Popen(j["cmd"], stdout=subprocess.PIPE, stderr=j["lf"], text=True, env=env, cwd=ROOT); running.append(j)
         for j in list(running):
             try:
                 j["stdout"], _ = j["p"].communicate(timeout=0.2)
             except subprocess.TimeoutExpired:
-                if time.time() - j["t0"] > deadline * 1.5 + 120:
+                if time.time() - j["t0"] > j.get("deadline", deadline) * 1.5 + 120:
                     j["p"].kill(); j["stdout"], _ = j["p"].communicate(); j["timeout"] = True
                 else: continue
             j["rc"] = j["p"].returncode; j["lf"].close(); running.remove(j)
